@@ -18,6 +18,7 @@ Unit description: units/<u>/unit.vs, a Verus source file with directive lines st
                 before-loop K | after-loop K | return J | closure K spec | after-semi K
 Everything that is not a directive is copied through unchanged (spec functions, lemmas, stubs).
 """
+import copy
 import os
 import re
 import hashlib
@@ -1166,6 +1167,51 @@ def rw_iterall(fi, args, spec=None):
     return edits
 
 
+def rw_update(fi, args, spec=None):
+    """R-UPDATE K..: the statement `RECV.update(|_, P| { BODY });` whose closure is closure K of the function (a closure
+    with a `&mut` parameter: no Verus contract possible) becomes the loop IndexCatalog::update is
+    (`for (k, i) in entries { f(k, i) }`) over the stub accessor `vc_entries_mut()`:
+        { let __uK = RECV.vc_entries_mut(); let mut __jK: usize = 0; let __nK: usize = __uK.len();
+          while __jK < __nK <text spliced `at closure K spec`: the loop invariant> { let P = &mut __uK[__jK].1; BODY __jK += 1; } }"""
+    toks = fi.toks
+    src = fi.sf.src
+    edits = []
+    for a in args:
+        cl = fi.closures[int(a)]
+        b1, b2 = cl['bar1'], cl['bar2']
+        # `RECV . update (` precedes bar1
+        if not (is_p(toks[b1 - 1], '(') and is_id(toks[b1 - 2], 'update') and is_p(toks[b1 - 3], '.')):
+            raise LostAnchor(f'fn {fi.item.name}: R-UPDATE: closure {a} is not the argument of `.update(`')
+        # receiver: back to the start of the statement
+        r = b1 - 4
+        while not (toks[r].kind == 'punct' and toks[r].text in (';', '{', '}')):
+            r -= 1
+        recv = src[toks[r + 1].start:toks[b1 - 3].start].strip()
+        params = [x for x in _split_args(toks, b1 + 1, b2)]
+        if len(params) != 2 or not is_id(toks[params[0][0]], '_'):
+            raise LostAnchor(f'fn {fi.item.name}: R-UPDATE: expected closure parameters `|_, P|`')
+        pat = src[toks[params[1][0]].start:toks[params[1][1] - 1].end].strip()
+        if not is_p(toks[b2 + 1], '{'):
+            raise LostAnchor(f'fn {fi.item.name}: R-UPDATE: closure body is not a block')
+        bo = b2 + 1
+        bc = match_close(toks, bo)
+        close_paren = bc + 1
+        if not (is_p(toks[close_paren], ')') and is_p(toks[close_paren + 1], ';')):
+            raise LostAnchor(f'fn {fi.item.name}: R-UPDATE: `.update(..)` is not a statement')
+        n = a
+        sp = ''
+        if spec is not None:
+            for anchor, text, org in spec.inserts:
+                if anchor == f'closure {a} spec':
+                    sp = '\n' + text + '\n'
+        edits.append((toks[r + 1].start, toks[b2].end,
+                      f'{{ let __u{n} = {recv}.vc_entries_mut(); let mut __j{n}: usize = 0; let __n{n}: usize = __u{n}.len();\n#[verifier::loop_isolation(false)]\nwhile __j{n} < __n{n} {sp}', 'R-UPDATE'))
+        edits.append((toks[bo].end, toks[bo].end, f' let {pat} = &mut __u{n}[__j{n}].1; ', 'R-UPDATE'))
+        edits.append((toks[bc].start, toks[bc].start, f' __j{n} += 1; ', 'R-UPDATE'))
+        edits.append((toks[close_paren].start, toks[close_paren + 1].end, ' }', 'R-UPDATE'))
+    return edits
+
+
 def rw_dyncall(fi, args, spec=None):
     """R-DYNCALL: `(RECV)(ARGS)` (call of a `dyn Fn` object stored in a field) -> `RECV.vc_call(ARGS)`; Verus does not
     support `dyn Fn` types, the stub type of the field offers `vc_call` with the closure's assumed contract."""
@@ -1190,6 +1236,7 @@ def rw_dyncall(fi, args, spec=None):
 
 REWRITES = {
     'R-DYNCALL': rw_dyncall,
+    'R-UPDATE': rw_update,
     'R-ITERALL': rw_iterall,
     'R-FNPARAM': rw_fnparam,
     'R-PARAMNAME': rw_paramname,
@@ -1224,6 +1271,8 @@ class FnSpec:
         self.canary = True
         self.rewrites = []
         self.inserts = []    # (anchor, text, (unit_path, line))
+        self.opt_rewrites = set()   # indices into rewrites declared `rewrite?`
+        self.opt_anchors = set()    # anchors declared `at?`
         self.unit_path = unit_path
         self.line = line
         self.emit_name = None
@@ -1257,6 +1306,24 @@ def emit_fn(gen, sf, item, spec, canary=False, qual='', in_trait=False):
         edits += pub_edits(sf, item)
     if spec.ret:
         edits += ret_edit(sf, item, spec.ret)
+    cur_shape = dict(loops=len(fi.loops), returns=len(fi.returns), breaks=len(fi.breaks), closures=len(fi.closures),
+                     **({'semis': _top_semis(toks, item)} if any(a.split()[0] == 'after-semi' for a, _, _ in spec.inserts) else {}))
+    # FALLBACK (opt-in): a function whose ordinal directives are all declared optional (`rewrite?`, `at?`) and whose
+    # shape differs from the recorded one is checked against its plain contract, without those directives.
+    fallback = False
+    if (spec.opt_rewrites or spec.opt_anchors) and spec.unit_path:
+        try:
+            import json as _json
+            rec = _json.load(open(os.path.join(os.path.dirname(spec.unit_path), 'shape.json'))).get(qual + item.name)
+        except (OSError, ValueError):
+            rec = None
+        if rec is not None and rec != cur_shape:
+            fallback = True
+            spec = copy.copy(spec)
+            spec.rewrites = [rw for k, rw in enumerate(spec.rewrites) if k not in spec.opt_rewrites]
+            spec.inserts = [ins for ins in spec.inserts if ins[0] not in spec.opt_anchors]
+            if not canary:
+                gen.rewrites.append((f'FALLBACK fn {item.name}: shape {rec} -> {cur_shape}; optional directives dropped, plain contract checked', sf.rel, 0))
     for rule, args in spec.rewrites:
         if rule not in REWRITES:
             raise LostAnchor(f'unknown rewrite {rule}')
@@ -1297,8 +1364,7 @@ def emit_fn(gen, sf, item, spec, canary=False, qual='', in_trait=False):
         line=line_of(src, toks[item.kw].start) + sf.line_base, hash=hashlib.sha256(body.encode()).hexdigest()[:16],
         gen_start=start_line, gen_end=end_line, canary=canary,
         contract=bool(spec.inserts), loops=len(fi.loops), bodiless=(item.body_open is None),
-        shape=dict(loops=len(fi.loops), returns=len(fi.returns), breaks=len(fi.breaks), closures=len(fi.closures),
-                   **({'semis': _top_semis(toks, item)} if any(a.split()[0] == 'after-semi' for a, _, _ in spec.inserts) else {})),
+        shape=cur_shape, fallback=fallback,
         ordinal=any(a.split()[0] in ('loop', 'before-loop', 'after-loop', 'return', 'break', 'closure', 'mapcollect', 'after-semi') for a, _, _ in spec.inserts)
                 or any(r in ('R-FOR', 'R-ENUM', 'R-ITER', 'R-HOIST', 'R-INTOVEC', 'R-CUTTAIL', 'R-CLOSPAT', 'R-MAPCOLLECT') for r, _ in spec.rewrites)))
     if not canary:
@@ -1433,7 +1499,7 @@ def check_shapes(gen, unit_path, record=False):
     path = os.path.join(os.path.dirname(unit_path), 'shape.json')
     cur = {}
     for f in gen.functions:
-        if not f['canary'] and f.get('ordinal'):
+        if not f['canary'] and f.get('ordinal') and not f.get('fallback'):
             cur[f['qual'] + f['name']] = f['shape']
     if record:
         json.dump(cur, open(path, 'w'), indent=1, sort_keys=True)
@@ -1508,11 +1574,15 @@ def _generate(unit_path, canaries=True, extra=()):
                     spec.ret = w[1]
                 elif w[0] == 'canary':
                     spec.canary = (w[1] != 'off')
-                elif w[0] == 'rewrite':
+                elif w[0] in ('rewrite', 'rewrite?'):
+                    if w[0] == 'rewrite?':
+                        spec.opt_rewrites.add(len(spec.rewrites))
                     spec.rewrites.append((w[1], w[2:]))
-                elif w[0] == 'at':
+                elif w[0] in ('at', 'at?'):
                     flush()
                     cur_anchor = ' '.join(w[1:])
+                    if w[0] == 'at?':
+                        spec.opt_anchors.add(cur_anchor)
                     buf_line = ln + 1
                 elif w[0] == '#':
                     pass
